@@ -125,16 +125,21 @@ func VerifC16Worker() {
 	script := &c16Script{}
 	n := 1 + sym.Choice("attempts", maxAttempts)
 	timeouts := 0
+	// every attempt but the last ends in a transient fault (only those are followed by another
+	// attempt), the last one in an outcome after which no further attempt is due
+	transient := []int{c16CallUnavailable, c16DropUnavailable, c16Overloaded, c16Internal, c16Timeout, c16RemoteCanceled}
+	final := []int{c16Deterministic, c16FailedMsg, c16Completed, c16CleanEOF, c16Cancelled}
 	for k := 0; k < n; k++ {
-		o := sym.Choice("outcome", c16Outcomes)
+		var o int
+		if k < n-1 {
+			o = transient[sym.Choice("transient-outcome", len(transient))]
+		} else {
+			o = final[sym.Choice("final-outcome", len(final))]
+		}
 		script.outcome = append(script.outcome, o)
 		script.updates = append(script.updates, sym.Choice("updates", maxUpdates+1))
 		if o == c16Timeout {
 			timeouts++
-		}
-		if k < n-1 {
-			// only a transient fault is followed by another attempt in the script
-			sym.Assume(c16Transient(o))
 		}
 	}
 	// three execution timeouts are a documented give-up: keep the script below
